@@ -36,10 +36,23 @@ def explore_model(pid: str, cfg_name: str, tier: str, seed: int, **kw: Any) -> D
         time_budget_s=100.0 if tier == "quick" else 900.0,
     )
     exkw.update(plan)
+    sub_alphabet = None
+    if exkw.get("actions") is None:
+        from mc.engine import all_actions, spaced_actions
+
+        try:
+            all_actions(env.action_spec)
+        except ValueError:  # joint alphabet beyond enumeration (default Connector: 5**10): evenly spaced members, never "closed"
+            exkw["actions"], total = spaced_actions(env.action_spec, 256)
+            sub_alphabet = f"{len(exkw['actions'])} evenly spaced members of an alphabet of {total}"
     ex = Explorer(env, cfg_name, pid, monitors=monitors, **exkw)
     if pre is not None:
         pre(ex)
     res = ex.run()
+    if sub_alphabet:
+        res["alphabet"] = sub_alphabet
+        res["closed"] = False
+        res["cap"] = res.get("cap") or "sub-alphabet"
     res["family"] = cfg.family
     res["kind"] = cfg.kind
     res["setup_s"] = round(time.time() - t0 - res["total_s"], 2)
